@@ -7,6 +7,8 @@ import (
 	"fmt"
 	"io"
 	"os"
+	"runtime"
+	"strings"
 	"sync"
 	"sync/atomic"
 	"time"
@@ -133,6 +135,12 @@ func (l *lowStore) StatBlobs(ctx context.Context, blobs []blob.Ref, fn func(blob
 }
 
 func (l *lowStore) EnumerateBlobs(ctx context.Context, dest chan<- blob.SizedRef, after string, limit int) error {
+	l.mu.Lock()
+	nover := len(l.over)
+	l.mu.Unlock()
+	if nover == 0 {
+		return l.mem.EnumerateBlobs(ctx, dest, after, limit)
+	}
 	defer close(dest)
 	ch := make(chan blob.SizedRef, 16)
 	errc := make(chan error, 1)
@@ -355,6 +363,7 @@ type inst struct {
 	lastDead *atomic.Bool // of the most recent creation attempt
 	plan     *inject.Plan
 	lastPlan *inject.Plan // plan of the most recent creation attempt
+	m0next   int          // meta blobs present at the most recent creation attempt
 	kv       *spyKV
 	S        blobserver.Storage
 	m0       int // meta blobs present when the current incarnation started
@@ -379,6 +388,7 @@ func newInst(r *ev.Run, root, id string) (*inst, error) {
 // EMPTY meta index.  arm may prepare the plan before any call is made.
 func (in *inst) create(arm func(p *inject.Plan)) (blobserver.Storage, *inject.Plan, *spyKV, error) {
 	in.inc++
+	in.m0next = in.meta.mem.NumBlobs()
 	plan := inject.NewPlan()
 	in.lastPlan = plan
 	dead := new(atomic.Bool)
@@ -398,20 +408,104 @@ func (in *inst) create(arm func(p *inject.Plan)) (blobserver.Storage, *inject.Pl
 		"blobs": "/enc-blobs/", "meta": "/enc-meta/",
 		"metaIndex": map[string]any(kvc),
 	}
-	var s blobserver.Storage
-	var err error
-	if in.r.Guard("CreateStorage", map[string]any{"case_id": in.id, "incarnation": in.inc}, func() {
-		s, err = blobserver.CreateStorage("encrypt", ld, conf)
-	}) {
-		return nil, plan, kv, errors.New("panic in CreateStorage")
+	type res struct {
+		s   blobserver.Storage
+		err error
 	}
-	return s, plan, kv, err
+	done := make(chan res, 1)
+	go func() {
+		var s blobserver.Storage
+		var err error
+		if in.r.Guard("CreateStorage", map[string]any{"case_id": in.id, "incarnation": in.inc}, func() {
+			s, err = blobserver.CreateStorage("encrypt", ld, conf)
+		}) {
+			err = errors.New("panic in CreateStorage")
+		}
+		done <- res{s, err}
+	}()
+	// Watchdog: the start-up scan takes milliseconds.  If it has not returned after createLimit the
+	// goroutine dump decides: a lock cycle through perkeep frames is reported, anything else is inconclusive.
+	tm := time.NewTimer(createLimit)
+	defer tm.Stop()
+	select {
+	case x := <-done:
+		return x.s, plan, kv, x.err
+	case <-tm.C:
+		in.reportHang()
+		return nil, plan, kv, errHang
+	}
+}
+
+const createLimit = 20 * time.Second
+
+var errHang = errors.New("verif: CreateStorage(encrypt) did not return")
+
+// lockCycle extracts from a goroutine dump the ids of the goroutines in the three roles of the
+// start-up lock cycle: the meta-store enumeration of the start-up scan (holds the store's read
+// lock while it sends), a compaction write waiting for the store's write lock, scan fetches
+// waiting for the read lock behind that writer.
+func lockCycle(dump string) (enum, writer, readers map[string]bool, frames []string) {
+	enum, writer, readers = map[string]bool{}, map[string]bool{}, map[string]bool{}
+	for _, g := range strings.Split(dump, "\n\n") {
+		id := g
+		if i := strings.IndexByte(g, '['); i > 0 {
+			id = strings.TrimSpace(g[:i])
+		}
+		switch {
+		case strings.Contains(g, "memory.(*Storage).EnumerateBlobs"):
+			enum[id] = true
+		case strings.Contains(g, "sync.(*RWMutex).Lock") && strings.Contains(g, "makePackedMetaBlob"):
+			writer[id] = true
+		case strings.Contains(g, "sync.(*RWMutex).RLock") && strings.Contains(g, "readAllMetaBlobs"):
+			readers[id] = true
+		default:
+			continue
+		}
+		if len(frames) < 6 {
+			frames = append(frames, ev.PerkeepFrames(g))
+		}
+	}
+	return
+}
+
+func common(a, b map[string]bool) int {
+	n := 0
+	for k := range a {
+		if b[k] {
+			n++
+		}
+	}
+	return n
+}
+
+func stackDump() string {
+	buf := make([]byte, 16<<20)
+	return string(buf[:runtime.Stack(buf, true)])
+}
+
+// reportHang inspects the goroutines of a start-up that did not return: the verdict needs the SAME
+// goroutines in all three roles of the lock cycle in two dumps taken seconds apart.
+func (in *inst) reportHang() {
+	d1 := stackDump()
+	time.Sleep(3 * time.Second)
+	d2 := stackDump()
+	e1, w1, r1, frames := lockCycle(d1)
+	e2, w2, r2, _ := lockCycle(d2)
+	fmt.Fprintf(os.Stderr, "c11: %s: CreateStorage did not return within %v; goroutine dump:\n%s\n", in.id, createLimit, d2)
+	if ne, nw, nr := common(e1, e2), common(w1, w2), common(r1, r2); ne > 0 && nw > 0 && nr > 0 {
+		in.r.Violation("hang/start-up-scan-vs-compaction",
+			fmt.Sprintf("%s: CreateStorage(encrypt) with an empty index over %d meta blobs never returns: the start-up scan launched a compaction whose write to the meta store waits for the store's lock, which the still-running enumeration of the same store holds while its consumer waits for meta fetches that queue behind the writer (same goroutines in two dumps 3 s apart: enumerations holding the lock: %d, compaction writers waiting: %d, scan fetches waiting: %d)\n%s",
+				in.id, in.m0next, ne, nw, nr, strings.Join(frames, "\n--\n")),
+			map[string]any{"case_id": in.id, "incarnation": in.inc, "meta_blobs_at_start": in.m0next})
+		return
+	}
+	in.r.Inconclusive(fmt.Sprintf("%s: CreateStorage(encrypt) did not return within %v and the goroutine dumps show no persistent lock cycle; see the worker log", in.id, createLimit))
 }
 
 // open replaces the current incarnation by a new one (the previous one must be frozen or idle).
 func (in *inst) open(arm func(p *inject.Plan)) error {
-	m0 := in.meta.mem.NumBlobs()
 	s, plan, kv, err := in.create(arm)
+	m0 := in.m0next
 	if err != nil {
 		return err
 	}
